@@ -626,6 +626,185 @@ def rejection_rule(ck, prog, direct, report, tu_prefix="src/extwchar/", entry_po
     return dict(consumers={k: sorted(v) for k, v in sorted(cons.items())}, call_sites=sites, not_judged=not_judged)
 
 
+# ---- Hangul composition: decision table of the arithmetic part of the pair composition vs UAX #15 section 3.12 ---------------------------------
+H_SBASE, H_LBASE, H_VBASE, H_TBASE, H_LCOUNT, H_VCOUNT, H_TCOUNT = 0xAC00, 0x1100, 0x1161, 0x11A7, 19, 21, 28
+H_SCOUNT = H_LCOUNT * H_VCOUNT * H_TCOUNT
+
+
+def hangul_rule(ck, fns, report, cp_name="cp", cp2_name="cp2"):
+    """clause: the algorithmic Hangul composition is the one of UAX #15.  The composition routine touches its two code points only through
+    comparisons with constants, one `(cp - SBase) % TCount == 0` test and linear arithmetic, so its arithmetic part is a finite decision table
+    over (interval of cp) x (residue class of cp - SBase) x (interval of cp2).  Every path that returns an arithmetic expression must be one
+    of the two rows of the standard -- L x V -> SBase + ((L-LBase)*VCount + (V-VBase))*TCount and LV x T -> LV + (T-TBase), with exactly
+    those domains -- and both rows must be covered completely.  (Everything else goes to the table lookup or returns a constant.)"""
+    from ..lin import Lin
+    found = None
+    for fn in fns:
+        if cp_name in fn.pnames and cp2_name in fn.pnames and any(
+                i["op"] == "icmp" and {o.get("v") for o in i["ops"] if o.get("k") == "c"} & {H_SBASE, H_SBASE - 1}
+                and any(o.get("id") == fn.pnames[cp_name]["id"] for o in i["ops"]) for i in fn.insts()):
+            found = fn
+            break
+    if found is None:
+        ck.fail_broken("Hangul rule: no routine with (cp, cp2) parameters that compares cp with SBase (U+AC00) found"); return {}
+    TOP = (1 << 32) - 1
+    paths = []          # (cp interval, residue: None/True(zero)/False(non-zero), cp2 interval, result Lin or ("const", v) or "other", function)
+    byname = {f.name: f for f in fns}
+    explored = set()
+
+    def explore(fn, CP, CP2, entry):
+        """the decision table of `fn` entered with (cp interval, residue, cp2 interval) = entry; a call that hands both code points on to
+        another routine of the unit is followed with the box the path has reached"""
+        if (fn.name, entry) in explored or len(explored) > 64:
+            return
+        explored.add((fn.name, entry))
+        def lin(o, depth=0):
+            if o.get("k") == "c":
+                return Lin.const(o["v"])
+            if o.get("k") != "v" or depth > 12:
+                return None
+            if o["id"] == CP:
+                return Lin.atom("cp")
+            if o["id"] == CP2:
+                return Lin.atom("cp2")
+            d = fn.defs.get(o["id"])
+            if d is None:
+                return None
+            if d["op"] in ("add", "sub"):
+                a, b = lin(d["ops"][0], depth + 1), lin(d["ops"][1], depth + 1)
+                return None if a is None or b is None else (a + b if d["op"] == "add" else a - b)
+            if d["op"] == "mul":
+                a, b = lin(d["ops"][0], depth + 1), lin(d["ops"][1], depth + 1)
+                if a is not None and b is not None and (a.is_const() or b.is_const()):
+                    return b.scale(a.c) if a.is_const() else a.scale(b.c)
+            if d["op"] in ("zext", "sext", "trunc"):
+                return lin(d["ops"][0], depth + 1)
+            return None
+
+        def cond_of(c, bb, pred_bb, depth=0):
+            """('const', truth) | ('iv', which, pred, const, negated) | ('res', zero-when-true) | None -- resolved along the path (i1 phis of
+            short-circuit && / || take the incoming value of the edge the path arrived over)"""
+            if c.get("k") == "c":
+                return ("const", bool(c["v"]))
+            d = fn.defs.get(c.get("id")) if c.get("k") == "v" else None
+            if d is None or depth > 6:
+                return None
+            if d["op"] == "xor" and d["ops"][1].get("k") == "c" and d["ops"][1]["v"] in (1, -1):
+                r = cond_of(d["ops"][0], bb, pred_bb, depth + 1)
+                if r is None:
+                    return None
+                if r[0] == "const":
+                    return ("const", not r[1])
+                if r[0] == "iv":
+                    return r[:4] + (not r[4],)
+                return ("res", not r[1])
+            if d["op"] == "phi" and d["_bb"] == bb and pred_bb is not None:
+                inc = next((x["v"] for x in d["incoming"] if x["bb"] == pred_bb), None)
+                return None if inc is None else cond_of(inc, pred_bb, None, depth + 1)
+            if d["op"] != "icmp":
+                return None
+            a, b, pred = d["ops"][0], d["ops"][1], d["pred"]
+            if a.get("k") == "c":
+                a, b, pred = b, a, intervals._SWAP.get(pred, pred)
+            if a.get("k") == "v" and b.get("k") == "c":
+                if a["id"] in (CP, CP2) and not pred.startswith("s"):
+                    return ("iv", "cp" if a["id"] == CP else "cp2", pred, b["v"], False)
+                da = fn.defs.get(a["id"])
+                if da is not None and da["op"] == "urem" and da["ops"][1].get("v") == H_TCOUNT and b["v"] == 0 and pred in ("eq", "ne"):
+                    l_ = lin(da["ops"][0])
+                    if l_ is not None and l_ == Lin.atom("cp") - Lin.const(H_SBASE):
+                        return ("res", pred == "eq")
+            return None
+
+        def walk(bb, pred_bb, icp, res, icp2, depth=0):
+            if depth > 80:
+                paths.append((icp, res, icp2, "other", fn)); return
+            t = fn.term(bb)
+            for i in fn.blocks[bb]["insts"]:
+                if i["op"] == "call" and i.get("callee") in byname and byname[i["callee"]] is not fn:
+                    cal = byname[i["callee"]]
+                    pos = {a.get("id"): k for k, a in enumerate(i.get("args", ())) if a.get("k") == "v"}
+                    if CP in pos and CP2 in pos and len(cal.params) > max(pos[CP], pos[CP2]):
+                        ids = list(cal.params)
+                        explore(cal, ids[pos[CP]], ids[pos[CP2]], (icp, res, icp2))
+            if any(i["op"] in ("load", "call") and not (i["op"] == "call" and str(i.get("callee", "")).startswith("invoke_safe_")) for i in fn.blocks[bb]["insts"]):
+                paths.append((icp, res, icp2, "other", fn)); return          # the table walk begins: not the arithmetic part
+            if t["op"] == "ret":
+                r = t["ops"][0] if t.get("ops") else None
+                v = r
+                dph = fn.defs.get(r.get("id")) if r is not None and r.get("k") == "v" else None
+                if dph is not None and dph["op"] == "phi" and dph["_bb"] == bb:
+                    v = next((x["v"] for x in dph["incoming"] if x["bb"] == pred_bb), None)
+                l_ = lin(v) if v is not None else None
+                if l_ is None:
+                    paths.append((icp, res, icp2, "other", fn))
+                elif l_.is_const():
+                    paths.append((icp, res, icp2, ("const", int(l_.c)), fn))
+                else:
+                    paths.append((icp, res, icp2, l_, fn))
+                return
+            if t["op"] != "br":
+                paths.append((icp, res, icp2, "other", fn)); return
+            if "cond" not in t:
+                return walk(t["t"], bb, icp, res, icp2, depth + 1)
+            c = cond_of(t["cond"], bb, pred_bb)
+            if c is None:
+                paths.append((icp, res, icp2, "other", fn)); return
+            if c[0] == "const":
+                return walk(t["t"] if c[1] else t["f"], bb, icp, res, icp2, depth + 1)
+            if c[0] == "iv":
+                cur = icp if c[1] == "cp" else icp2
+                for truth, succ in ((True, t["t"]), (False, t["f"])):
+                    for (l, h) in intervals._restrict([cur], c[2], c[3], truth != c[4]):
+                        if c[1] == "cp":
+                            walk(succ, bb, (l, h), res, icp2, depth + 1)
+                        else:
+                            walk(succ, bb, icp, res, (l, h), depth + 1)
+            else:
+                for truth, succ in ((True, t["t"]), (False, t["f"])):
+                    want = c[1] if truth else (not c[1])
+                    if res is None or res == want:
+                        walk(succ, bb, icp, want, icp2, depth + 1)
+        walk(fn.entry, None, entry[0], entry[1], entry[2])
+
+    explore(found, found.pnames[cp_name]["id"], found.pnames[cp2_name]["id"], ((0, TOP), None, (0, TOP)))
+    fn = found
+    cp_, cp2_ = Lin.atom("cp"), Lin.atom("cp2")
+    rows = [("LxV", (H_LBASE, H_LBASE + H_LCOUNT - 1), None, (H_VBASE, H_VBASE + H_VCOUNT - 1),
+             ((cp_ - Lin.const(H_LBASE)).scale(H_VCOUNT) + cp2_ - Lin.const(H_VBASE)).scale(H_TCOUNT) + Lin.const(H_SBASE)),
+            ("LVxT", (H_SBASE, H_SBASE + H_SCOUNT - 1), True, (H_TBASE + 1, H_TBASE + H_TCOUNT - 1), cp_ + cp2_ - Lin.const(H_TBASE))]
+    covered = {r[0]: [] for r in rows}
+    n_arith = 0
+    for (icp, res, icp2, e, fn) in paths:
+        if not isinstance(e, Lin):
+            continue
+        n_arith += 1
+        hit = None
+        for (nm, dcp, dres, dcp2, expr) in rows:
+            inside = dcp[0] <= icp[0] and icp[1] <= dcp[1] and dcp2[0] <= icp2[0] and icp2[1] <= dcp2[1] and (dres is None or res == dres)
+            if inside and e == expr:
+                hit = nm
+        if hit is None:
+            report("C17:hangul-composition:%X-%X:%s:%X-%X" % (icp[0], icp[1], {None: "any", True: "LV", False: "LVT"}[res], icp2[0], icp2[1]), "H-hangul-composition-is-uax15",
+                   "%s:%s" % (fn.file, fn.line),
+                   "%s composes cp in U+%04X..U+%04X (%s) with cp2 in U+%04X..U+%04X arithmetically to %s: UAX #15 composes only L x V and LV x T (a syllable that already has a trailing consonant takes no second one)"
+                   % (fn.name, icp[0], icp[1], {None: "any residue", True: "(cp - SBase) % 28 == 0", False: "(cp - SBase) % 28 != 0"}[res], icp2[0], icp2[1], e))
+        else:
+            covered[hit].append((icp, icp2))
+    for (nm, dcp, dres, dcp2, expr) in rows:
+        xs = sorted({p for b in covered[nm] for p in (b[0][0], b[0][1] + 1)} | {dcp[0], dcp[1] + 1})
+        ys = sorted({p for b in covered[nm] for p in (b[1][0], b[1][1] + 1)} | {dcp2[0], dcp2[1] + 1})
+        gap = None
+        for x0, x1 in zip(xs, xs[1:]):
+            for y0, y1 in zip(ys, ys[1:]):
+                if dcp[0] <= x0 <= dcp[1] and dcp2[0] <= y0 <= dcp2[1] and not any(b[0][0] <= x0 <= b[0][1] and b[1][0] <= y0 <= b[1][1] for b in covered[nm]):
+                    gap = gap or (x0, y0)
+        if gap:
+            report("C17:hangul-composition-missing:%s:%X:%X" % (nm, gap[0], gap[1]), "H-hangul-composition-is-uax15", "%s:%s" % (found.file, found.line),
+                   "%s does not compose U+%04X with U+%04X arithmetically although UAX #15's %s rule covers the pair" % (found.name, gap[0], gap[1], nm))
+    return dict(function=found.name, followed=sorted({x[0] for x in explored}), paths=len(paths), arithmetic_results=n_arith, rows={k: len(v) for k, v in covered.items()})
+
+
 def run(ck):
     mods, info = frontend.load_modules()
     prog = Program(mods)
@@ -716,6 +895,9 @@ def run(ck):
     else:
         ck.fail_broken("inverse agreement: composition lists or decomposition map not available")
     layout.pop("_lists", None); decomp.pop("_decomp", None)
+    hangul = hangul_rule(ck, [f for f in prog.allfuncs if f.mod["tu"] == "src/extwchar/wcsnorm_s.c"], ck.report)
+    if hangul and hangul.get("arithmetic_results", 0) < 2:
+        ck.fail_broken("Hangul rule: fewer than two arithmetic composition results found")
     fx = selftest(ck)
     ob = n_acc + n_sites
     cov = dict(explanation="%d loads from constant tables indexed by (code point >> 16) were found in src/extwchar; %d are bounded inside the function; for the others the bound "
@@ -727,7 +909,7 @@ def run(ck):
                "three-level canonical table decodes, with _decomp_canonical_s's own shifts, masks and address arithmetic (constant-folded over the table contents), to exactly one row of an existing value table, "
                "the returned length is that row's width, and every row of the value tables is referenced." % (n_acc, n_ok, n_sites, len(rej["call_sites"]), layout.get("lists"), decomp.get("distinct_values")),
                obligations=ob, discharged=ob - len({r["key"] for r in ck.reports}), table_accesses=n_acc, bounded_in_place=n_ok, call_site_obligations=n_sites,
-               helpers_relying_on_callers={k: sorted(v) for k, v in need.items()}, rejection=rej, fold_agreement=fold, layout_agreement=layout, decomposition_agreement=decomp, inverse_agreement=inverse, fixtures=fx, frontend=info,
+               helpers_relying_on_callers={k: sorted(v) for k, v in need.items()}, rejection=rej, fold_agreement=fold, layout_agreement=layout, decomposition_agreement=decomp, inverse_agreement=inverse, hangul_composition=hangul, fixtures=fx, frontend=info,
                summary="%d plane-table accesses, %d call-site obligations" % (n_acc, n_sites))
     return ck.finish(cov, ["decided: the table-index clause, the iswfc/towfc_s agreement for multi-character foldings the reader/table layout agreement of the composition lists and the decode agreement of the canonical decomposition tables; UAX #15 conformance, idempotence and the single-character (libc towlower/iswupper) cases are not", "32-bit wchar_t configuration"])
 
@@ -775,4 +957,11 @@ def selftest(ck):
         out[n] = dict(values=r.get("distinct_values"), reports=got)
         if sk.broken or sorted({":".join(k.split(":")[:2]) for k in got}) != want:
             ck.fail_broken("fixture c17.c:%s: decomposition agreement reported %s, expected %s (%s)" % (n, got, want, sk.broken))
+    for n, want in (("fx17_hangul_good", []), ("fx17_hangul_any_s", ["C17:hangul-composition", "C17:hangul-composition-missing"]), ("fx17_hangul_short_t", ["C17:hangul-composition-missing"]),
+                    ("fx17_hangul_wrong_sum", ["C17:hangul-composition", "C17:hangul-composition-missing"])):
+        got, sk = [], Sink()
+        r = hangul_rule(sk, [prog.funcs[n]], lambda key, *a, **k: got.append(key))
+        out[n] = dict(r, reports=got)
+        if sk.broken or sorted({":".join(k.split(":")[:2]) for k in got}) != want:
+            ck.fail_broken("fixture c17.c:%s: Hangul composition rule reported %s, expected %s (%s)" % (n, got, want, sk.broken))
     return out
